@@ -253,7 +253,10 @@ func (f *Formatter) formatIfStatement(stmt *ast.IfStatement) string {
 	}
 
 	buf.WriteString(f.formatBlockStatement(stmt.Consequence))
-	if v := f.formatComment(stmt.Consequence.Trailing, "", 0); v != "" {
+	// Without else-if / else the trailing comment of the consequence is the trailing comment
+	// of the statement line (see formatStatement), printing it here would duplicate it
+	hasFollowing := len(stmt.Another) > 0 || stmt.Alternative != nil
+	if v := f.formatComment(stmt.Consequence.Trailing, "", 0); v != "" && hasFollowing {
 		// If comment is inline , concat to the same line
 		if isInlineComment(stmt.Consequence.Trailing) {
 			buf.WriteString(" " + v)
